@@ -466,7 +466,9 @@ _SEP_HINT = """let ghost lit = Literal { t: "." };
 GRAMMAR = {
     'number': dict(
         O='u64', acc='g_number(i@) == Some((o as nat, rest@))', rej='g_number(i@) is None',
-        rewrites=[("|raw| {", "|raw: &'s str| -> (r: Result<u64, SemverParseError<&'s str>>)\n        ensures match r { Ok(v) => v <= MAX_SAFE_INTEGER && parse_spec::<u64>(raw@) == Some(v), Err(_) => parse_spec::<u64>(raw@) matches Some(v) ==> v > MAX_SAFE_INTEGER }\n    {", 'closure parameter typed, contract')],
+        rewrites=[("|raw| {", "|raw: &'s str| -> (r: Result<u64, SemverParseError<&'s str>>)\n        ensures match r { Ok(v) => v <= MAX_SAFE_INTEGER && parse_spec::<u64>(raw@) == Some(v), Err(_) => parse_spec::<u64>(raw@) matches Some(v) ==> v > MAX_SAFE_INTEGER }\n    {", 'closure parameter typed, contract'),
+                  ("|e| SemverParseError {", "|e: std::num::ParseIntError| -> (pe: SemverParseError<&'s str>) { SemverParseError {", 'closure parameter typed (its result is an error payload: no contract needed)'),
+                  ("kind: Some(SemverErrorKind::ParseIntError(e)),\n        })?;", "kind: Some(SemverErrorKind::ParseIntError(e)),\n        } })?;", 'closure body braces')],
         entry='broadcast use ax_parse_u64_digits;\n    proof { lemma_span_props(input@, |c: char| dg_char(c)); }\n    '),
     'version_core': dict(
         O='(u64, u64, u64)', acc='g_core(i@) == Some(((o.0 as nat, o.1 as nat, o.2 as nat), rest@))', rej='g_core(i@) is None',
